@@ -1392,7 +1392,14 @@ func (t *typeParser) parseParamNodes() (params []typeParserParamNode, ok bool) {
 
 	t.skipWhitespace()
 
-	for t.input[t.index] != ')' {
+	for {
+		if t.index >= len(t.input) {
+			// the definition ends inside the parameter list
+			return nil, false
+		}
+		if t.input[t.index] == ')' {
+			break
+		}
 		// look for a named param, but if no colon, then we want to backup
 		backupIndex := t.index
 
@@ -1407,7 +1414,7 @@ func (t *typeParser) parseParamNodes() (params []typeParserParamNode, ok bool) {
 
 		t.skipWhitespace()
 
-		if t.input[t.index] == ':' {
+		if t.index < len(t.input) && t.input[t.index] == ':' {
 			// there is a name for this parameter
 
 			// consume the ':'
@@ -1440,7 +1447,7 @@ func (t *typeParser) parseParamNodes() (params []typeParserParamNode, ok bool) {
 
 		t.skipWhitespace()
 
-		if t.input[t.index] == ',' {
+		if t.index < len(t.input) && t.input[t.index] == ',' {
 			// consume the comma
 			t.index++
 
